@@ -236,3 +236,17 @@ func canonResult(res any) string {
 	}
 	return SpewString(res)
 }
+
+// Explain returns the index and canonical text of one named query (debugging / replay reports).
+func Explain(s *state.Store, name string) (uint64, string) {
+	for _, q := range Battery() {
+		if q.Name == name {
+			idx, res, err := q.Run(memdb.NewWatchSet(), s)
+			if err != nil {
+				return idx, "error: " + err.Error()
+			}
+			return idx, strings.Join(strings.Fields(canonResult(res)), " ")
+		}
+	}
+	return 0, "no such query"
+}
